@@ -175,6 +175,9 @@ def ite_nv(c, a, b):
 
 # --------------------------------------------------------------------------
 
+STORED_INT_BOUND = 2 ** 62
+
+
 class Row:
     __slots__ = ('present', 'vals')
 
@@ -225,6 +228,16 @@ class SymDB:
             if k not in full:
                 raise KeyError(k)
         full.update(vals)
+        # scope of every claim: stored integers are far from the ends of the
+        # signed 64-bit range (a counter such as a generation does not run
+        # out); stated in the evidence as an assumption
+        cur = symex.PathCtx.cur
+        if cur is not None:
+            for v in vals.values():
+                if isinstance(v, SymNum) and \
+                        to_z3(v).sort() == z3.IntSort():
+                    cur.assume(z3.And(to_z3(v) >= -STORED_INT_BOUND,
+                                      to_z3(v) <= STORED_INT_BOUND))
         self.committed.tables[tname].append(Row(present, full))
         pk = list(t.primary_key.columns)
         if len(pk) == 1 and isinstance(full[pk[0].name], int):
@@ -1087,11 +1100,63 @@ class SymSession:
             self._tables_of(f.left, acc)
             self._tables_of(f.right, acc)
 
+    def _check_int64(self, stmt, params):
+        """the DBAPI driver (sqlite3) refuses integers outside the signed
+        64-bit range when binding parameters: OverflowError, which oslo.db
+        wraps as DBError.  Decided once per statement and per distinct
+        symbolic term."""
+        from sqlalchemy.sql import visitors
+        vals = []
+        try:
+            for e in visitors.iterate(stmt):
+                if isinstance(e, el.BindParameter):
+                    v = e.value
+                    if params and e.key in params:
+                        v = params[e.key]
+                    vals.extend(v if isinstance(v, (list, tuple, set))
+                                else [v])
+        except Exception:
+            return
+        if isinstance(params, dict):
+            vals.extend(params.values())
+        cur = symex.PathCtx.cur
+        seen = cur.data.setdefault('int64_checked', set()) \
+            if cur is not None and hasattr(cur, 'data') else set()
+        for v in vals:
+            if isinstance(v, tuple) and len(v) == 2:
+                v = v[1]
+            if isinstance(v, bool):
+                continue
+            if isinstance(v, str):
+                try:
+                    v.encode('utf-8')
+                except UnicodeEncodeError:
+                    # the driver cannot encode e.g. lone surrogates
+                    from oslo_db import exception as db_exc
+                    raise db_exc.DBInvalidUnicodeParameter()
+                continue
+            if isinstance(v, int):
+                if not -2 ** 63 <= v < 2 ** 63:
+                    self._overflow()
+            elif isinstance(v, SymNum):
+                t = to_z3(v)
+                if t.sort() != z3.IntSort() or t.get_id() in seen:
+                    continue
+                if fork(z3.Or(t >= 2 ** 63, t < -2 ** 63)):
+                    self._overflow()
+                seen.add(t.get_id())
+
+    def _overflow(self):
+        from oslo_db import exception as db_exc
+        raise db_exc.DBError(OverflowError(
+            'Python int too large to convert to SQLite INTEGER'))
+
     def execute(self, stmt, params=None, **kw):
         if self.view is None:
             # autobegin (placement never relies on it, but be faithful)
             self.begin()
         self._account(stmt)
+        self._check_int64(stmt, params)
         if isinstance(stmt, sel.Select):
             for f in stmt.get_final_froms():
                 self._tables_of(f, self.reads)
